@@ -54,6 +54,17 @@ class _LowerIfExp(ast.NodeTransformer):
             return self._lower(node, lambda v: ast.Return(value=v))
         return node
 
+    def visit_Expr(self, node):
+        # `yield a if c else b` (as a statement)
+        v = node.value
+        if isinstance(v, ast.Yield) and isinstance(v.value, ast.IfExp):
+            def lower(e):
+                if not isinstance(e, ast.IfExp):
+                    return ast.copy_location(ast.Expr(value=ast.copy_location(ast.Yield(value=e), node)), node)
+                return ast.copy_location(ast.If(test=e.test, body=[lower(e.body)], orelse=[lower(e.orelse)]), node)
+            return lower(v.value)
+        return node
+
     def visit_With(self, node):
         # `with (A if c else B): body`  ->  `if c: with A: body  else: with B: body`;  `with nullcontext(): body` is `body`
         self.generic_visit(node)
@@ -69,6 +80,19 @@ class _LowerIfExp(ast.NodeTransformer):
         return node
 
     def visit_Lambda(self, node):
+        return node
+
+
+class _SplitWith(ast.NodeTransformer):
+    """`with A, B as x: body`  ->  `with A: with B as x: body` (the language defines the first by the second)"""
+
+    def visit_With(self, node):
+        self.generic_visit(node)
+        while len(node.items) > 1:
+            inner = ast.copy_location(ast.With(items=node.items[1:], body=node.body, type_comment=None), node)
+            inner = self.visit_With(inner) if len(inner.items) > 1 else inner
+            node.items = node.items[:1]
+            node.body = [inner]
         return node
 
 
@@ -185,6 +209,43 @@ def _first_evaluated(expr, name):
                 ev(c)
     ev(expr)
     return state['found'] and not state['impure']
+
+
+def _calls_nothing(e):
+    """an expression of names, attributes, constants, comparisons and and / or / not only"""
+    return all(isinstance(x, (ast.Name, ast.Attribute, ast.Constant, ast.Compare, ast.BoolOp, ast.UnaryOp, ast.expr_context, ast.cmpop,
+                              ast.boolop, ast.unaryop)) for x in ast.walk(e))
+
+
+def _leftmost_is(e, name):
+    """is the load of `name` the first operand that `e` evaluates (through and / or / not / conditional tests / comparisons)?"""
+    while True:
+        if isinstance(e, ast.Name):
+            return e.id == name and isinstance(e.ctx, ast.Load)
+        if isinstance(e, ast.BoolOp):
+            e = e.values[0]
+        elif isinstance(e, ast.IfExp):
+            e = e.test
+        elif isinstance(e, ast.UnaryOp):
+            e = e.operand
+        elif isinstance(e, ast.Compare):
+            e = e.left
+        elif isinstance(e, ast.BinOp):
+            e = e.left
+        elif isinstance(e, ast.Call):
+            e = e.func          # `m = obj.method` / `return m(x)`: the callee expression is evaluated before the arguments
+        elif isinstance(e, ast.Attribute):
+            e = e.value
+        else:
+            return False
+
+
+def _flatten_boolops(node):
+    """`(a and b) and c` -> `a and b and c` (first operand only: evaluation order and result are the same)"""
+    for x in ast.walk(node):
+        if isinstance(x, ast.BoolOp):
+            while isinstance(x.values[0], ast.BoolOp) and type(x.values[0].op) is type(x.op):
+                x.values = x.values[0].values + x.values[1:]
 
 
 def _first_evaluated_seq(expr, names):
@@ -311,6 +372,16 @@ class _InlineTemps(ast.NodeTransformer):
                         out.append(b)
                         i += 2
                         continue
+                    # a named condition that calls nothing, read as the first thing the next statement evaluates:
+                    # `ok = x is not None` / `return ok and y` -> `return x is not None and y`
+                    if use is not None and not isinstance(use, ast.Name) and loads.get(t, 0) == 1 and stores.get(t, 0) == 1 and t not in params and \
+                            _calls_nothing(a.value) and _leftmost_is(use, t) and \
+                            not (isinstance(b, ast.Assign) and any(isinstance(x, ast.Name) and x.id == t for tg in b.targets for x in ast.walk(tg))):
+                        _replace_name(b, t, a.value)
+                        _flatten_boolops(b)
+                        out.append(b)
+                        i += 2
+                        continue
                 out.append(a)
                 i += 1
             return out
@@ -336,6 +407,7 @@ def normalise_tree(tree, rel=None):
     if rel is not None:
         from .simplify import inline_new_constants
         tree = inline_new_constants(tree, rel)
+    tree = _SplitWith().visit(tree)
     tree = _LowerIfExp().visit(tree)
     tree = _ForUnpackFold().visit(tree)
     tree = _LoopToComp().visit(tree)
@@ -603,6 +675,11 @@ class Repo:
             self.modules[rel].lock_idiom_lowered = True
         changed, self.inline_report = normalise({rel: m.tree for rel, m in self.modules.items()}, sources={rel: m.src for rel, m in self.modules.items()})
         for rel, t in changed.items():
+            self.modules[rel] = self.modules[rel].with_tree(t)
+        # closures that are new and called once: written out at their call
+        from .inline import inline_local_closures
+        from .localnames import reference_functions
+        for rel, t in inline_local_closures({rel: m.tree for rel, m in self.modules.items()}, srcs, reference_functions()).items():
             self.modules[rel] = self.modules[rel].with_tree(t)
         # last (the helper inlining above starts again from the sources): delegations to the inherited implementation
         for rel, t in inline_super_calls({rel: m.tree for rel, m in self.modules.items()}).items():
